@@ -182,6 +182,7 @@ class Ctl(Harness):
             add("linnl", 2, 1, npt=2)
             add("unc1", 3, 1, faults=1, ill=1)
             add("box1", 3, 1, cb="lambda-pos", scribble=True)
+            add("box1", 3, 1, cb="kwonly-kw")
             add("box2s", 3, 1, cb="obj-kw", npt=3, scribble=True)
             add("fixed1", 3, 1, cb="partial-pos")
             add("linub", 3, 1, cb="partial-kw")
@@ -466,6 +467,9 @@ class Ctl(Harness):
         elif cbk == "kw":
             def callback(intermediate_result):
                 cb_core(intermediate_result.x, intermediate_result.fun)
+        elif cbk == "kwonly-kw":
+            def callback(*, intermediate_result):
+                cb_core(intermediate_result.x, intermediate_result.fun)
         elif cbk == "lambda-pos":
             callback = lambda xk: cb_core(xk, None)
         elif cbk == "obj-kw":
@@ -742,6 +746,9 @@ class Ctl(Harness):
                 vals = [f] + list(cu) + list(ce)
                 C("C08", "values_handed_to_solver_are_finite_and_barrier_clipped",
                   all_of(b_and(isfin(v), lift(v) <= BARRIER, lift(v) >= -BARRIER) if isfin(v) else False for v in vals))
+        if shape["cb"] != "none":
+            C("C20", "callback_invoked_in_the_convention_its_signature_asks_for", o.get("exc_type") != "TypeError",
+              s=f"{sig}:{shape['cb']}")
         if res is None:
             goals.append("exception")
             # still judge the call discipline on what happened before the exception
